@@ -142,7 +142,7 @@ _fresh = {}
 def fresh(j):
     if j not in _fresh:
         out = subprocess.run([sys.executable, "-m", "vt.harness.c20", "fresh", str(j)], capture_output=True, text=True, cwd="/verif",
-                             env=dict(os.environ, PYTHONPATH="/verif", PYTHONDONTWRITEBYTECODE="1", PYTHONHASHSEED="0"))
+                             env=dict(os.environ, PYTHONPATH="/verif" + (os.pathsep + os.environ["VT_REPO"] if os.environ.get("VT_REPO") else ""), PYTHONDONTWRITEBYTECODE="1", PYTHONHASHSEED="0"))
         line = [ln for ln in out.stdout.splitlines() if ln.startswith("RESULT ")]
         if not line:
             raise RuntimeError("fresh run failed: %s" % (out.stdout + out.stderr)[-600:])
